@@ -246,9 +246,26 @@ def _param_vs_start(rep, mod, pf, start):
     """the `else` (initialised) branch of MonteCarloSampler_param fills occupied_set/unoccupied_set/index like start."""
     def triples(scope, prefix):
         out = set()
+        # the occupancy of the running site: ``occ[i]`` inside ``for i in range(...)`` -- or the value variable of
+        # ``for i, occ_i in enumerate(occ)``; the site index is called ``i`` in the triples whatever its name
         for n in ast.walk(scope):
-            if isinstance(n, ast.If) and isinstance(n.test, ast.Compare) and isinstance(n.test.comparators[0], ast.Constant) \
-                    and unparse(n.test.left) in ('occ[i]',):
+            site = None
+            if isinstance(n, ast.If) and isinstance(n.test, ast.Compare) and len(n.test.ops) == 1 and isinstance(n.test.ops[0], ast.Eq) \
+                    and isinstance(n.test.comparators[0], ast.Constant):
+                left = n.test.left
+                if isinstance(left, ast.Subscript) and unparse(left.value) == 'occ' and isinstance(left.slice, ast.Name):
+                    site = left.slice.id
+                elif isinstance(left, ast.Name):
+                    lp = getattr(n, '_parent', None)
+                    while lp is not None and site is None:
+                        if isinstance(lp, ast.For) and isinstance(lp.target, ast.Tuple) and len(lp.target.elts) == 2 \
+                                and unparse(lp.target.elts[1]) == left.id and unparse(lp.iter) == 'enumerate(occ)' \
+                                and isinstance(lp.target.elts[0], ast.Name):
+                            site = lp.target.elts[0].id
+                        lp = getattr(lp, '_parent', None)
+            if site is not None:
+                from ..engines.linform import rename
+                n = rename(n, {site: 'i'}) if site != 'i' else n
                 v = n.test.comparators[0].value
                 for s in n.body:
                     if isinstance(s, ast.Assign) and isinstance(s.targets[0], ast.Subscript):
@@ -318,11 +335,14 @@ def _transition_predicates(model, rep, mod, ref, jit):
     nvar = unparse(jl[0].target)
     ifs = [s for s in jl[0].body if isinstance(s, ast.If)]
     conts = [s for s in ifs if any(isinstance(x, ast.Continue) for x in s.body)]
+    from ._common import resolve_in_block
     if len(ifs) == 1 and ifs[0].orelse and not conts:
-        jit_allowed = lambda env: _eval(ifs[0].test, env)
+        jtest = resolve_in_block(ifs[0], ifs[0].test)
+        jit_allowed = lambda env: _eval(jtest, env)
         jnode = ifs[0]
     elif conts:
-        jit_allowed = lambda env: not any(_eval(c.test, env) for c in conts)
+        ctests = [resolve_in_block(c, c.test) for c in conts]
+        jit_allowed = lambda env: not any(_eval(c, env) for c in ctests)
         jnode = conts[0]
     else:
         raise AnalysisError('MonteCarloSampler_jit.transitions: allowed/forbidden test not recognised')
